@@ -9,6 +9,7 @@ for p in selftest/mutants/*${pat}*.patch; do
   name=$(basename $p .patch); prop=$(cat selftest/mutants/$name.prop)
   w=$(mktemp -d /tmp/selftest.XXXXXX)
   git -C /repo worktree add -q --detach "$w" HEAD
+  (cd /repo && find . -name contracts_verif.go -print0 | tar --null -cf - -T -) | (cd "$w" && tar xf -)
   if ! git -C "$w" apply "/verif/$p"; then echo "SELFTEST $name: patch does not apply"; fail=1; git -C /repo worktree remove --force "$w"; continue; fi
   out=$(bin/bfvc check --property $prop --repo "$w" --evidence-dir "$w/.evidence" 2>&1); rc=$?
   git -C /repo worktree remove --force "$w"
